@@ -167,7 +167,9 @@ CLAIMED["C15"] = ("DESIGN.md §4 C15 (partial)",
     "and as the opposite side by the neighbour, nothing else changes, and of two overlapping strokes (from either cell "
     "sharing the edge) the later wins; the real add_stroke run patching for 2..3 strokes of every start and length along a "
     "line of 6 cells: the stored runs, read back with 'highest order wins', show at every position the most recent stroke "
-    "covering it (saved file agrees with the open document). Style attribute round trips are NOT claimed.",
+    "covering it (saved file agrees with the open document); Style objects: assigning any one of the 16 public attributes stores "
+    "exactly it and marks exactly the style archive(s) it lives in for rewriting, a style read from a cell carries attribute by "
+    "attribute what the model reports, wrongly typed attributes are refused. Writing/re-reading style archives is NOT claimed.",
     "trusted: pysym; stroke run / layer records as attribute bags, create_stroke reduced to its contract; outside: style "
     "archives (nested protobuf), images, fonts, interior edges of merged blocks")
 
